@@ -9,6 +9,7 @@ def run(ctx):
         return "C37:%s" % v["clause"]
 
     fn_pipeline(ctx, "C37", "backoff", "GenBackoff", "TraceBackoff", crate="h_client", sig=sig,
+                consts={"Wide": not ctx.quick}, trace_consts={"Wide": not ctx.quick},
                 key=lambda c: {k: c["c"][k] for k in ("init", "max", "limit", "from", "n")} if c else None,
                 expected=lambda c: c.get("exp"), observed=lambda o: o.get("r"),
                 nontrivial=lambda c: c["c"]["n"] > 2 and c["c"]["limit"] != {"k": "some", "v": [0, 0]},
@@ -16,7 +17,8 @@ def run(ctx):
                      "Duration::MAX/2 + 1 ns, Duration::MAX - 1 ns, Duration::MAX} x the same points for the maximum x retry "
                      "limits {none, 0, 1, 2, 3, 10, 70, u32::MAX} x {fresh back-off, back-off that has already produced "
                      "u32::MAX - 2 delays}; each is run on the real ExponentialBackoff for limit + 2 calls (70 when "
-                     "unlimited or above 70, 6 for the resumed ones); non-trivial = at least 3 calls and a limit above 0")
+                     "unlimited or above 70, 6 for the resumed ones); the thorough tier adds the points 1 us, 1 s, Duration::MAX/4, "
+                     "Duration::MAX/2 - 1 ns and the limits 5, 69, 71, u32::MAX - 1; non-trivial = at least 3 calls and a limit above 0")
     ctx.assumptions += ["durations are exact nanosecond counts (base-10000 digit sequences), u32 values are <<hi, lo>> pairs",
                         "the state after u32::MAX - 2 delays is installed through the cfg-guarded hook "
                         "ExponentialBackoff::verif_set_state instead of 4 294 967 293 calls of next()"]
